@@ -218,7 +218,8 @@ def run(chk):
                 "by TLC (Trace_C16). distinct = (position, rule, identifier) triples inside serde's own domain.")
     chk.assumptions = ["SerdeCase.tla is a faithful transcription of serde_derive 1.0.214 case.rs (cross-checked on "
                        "every enumerated identifier against the vendored original)",
-                       "the name typeshare computes is read from ParsedData (Id.renamed), which every backend prints"]
+                       "the name typeshare computes is read from ParsedData (Id.renamed); that every backend prints it as the wire name, wherever the member "
+                       "stands in its item, is checked on MC_C16_backends' items in all 6 languages"]
     res = common.run_tlc("MC_C16", cfg="MC_C16_thorough" if thorough else "MC_C16_quick", workers=8 if thorough else 4,
                          timeout=1500, heap="8g")
     chk.add_tlc("MC_C16", res)
@@ -276,10 +277,62 @@ def run(chk):
                      "SerdeCase!Apply", "PANIC" if e["panic"] else real("".join(e["obs"])))
     for e in events:
         chk.judged((e["pos"], e["rule"], real("".join(e["ident"]))))
+    backends(chk)
+
+
+def backends(chk):
+    """MC_C16_backends: the computed name is the wire name every backend prints, wherever the member stands in its item."""
+    from .. import observe as vobserve
+    res = common.run_tlc("MC_C16_backends", cfg="MC_C16_backends", workers=2, timeout=300)
+    chk.add_tlc("MC_C16_backends", res)
+    if not res.replays:
+        raise ToolError("MC_C16_backends produced no cases")
+    srcs = []
+    for c in res.replays:
+        rule, ms = c["case"]["rule"], c["members"]
+        if c["case"]["pos"] == "field":
+            srcs.append(f'#[typeshare]\n#[serde(rename_all = "{rule}")]\npub struct Backend {{\n' + "".join(f"    pub {rust_ident(m['ident'])}: u32,\n" for m in ms) + "}\n")
+        else:
+            srcs.append(f'#[typeshare]\n#[serde(rename_all = "{rule}")]\npub enum Backend {{\n' + "".join(f"    {m['ident']},\n" for m in ms) + "}\n")
+    events, meta = [], []
+    for c, src, per in zip(res.replays, srcs, vobserve.generate(srcs)):
+        for lang in common.LANGS:
+            r = per[lang]
+            if r["status"] != "ok":
+                continue          # a refusal / panic / unreadable file is C03 / C07 / C10's business
+            d = vobserve.find_def(r["obs"], "Backend")
+            got = [m["key"] for m in d.get("members", [])] if d and c["case"]["pos"] == "field" else \
+                  [v["wire"] for v in d.get("variants", [])] if d else []
+            if lang == "scala" and c["case"]["pos"] == "field" and any("-" in m["expect"] for m in c["members"]):
+                continue          # Scala carries no key binding for fields: dashed keys are outside the property (as in C01)
+            if len(got) != len(c["members"]):
+                chk.mismatch(f"C16/{lang}-backend/{c['case']['pos']}/{c['case']['rule']}/members-lost", f"{lang}: members {got} for {[m['ident'] for m in c['members']]}",
+                             {"case": c["case"], "lang": lang, "src": src, "backend": True}, [m["expect"] for m in c["members"]], got)
+                continue
+            for m, g in zip(c["members"], got):
+                events.append({"pos": c["case"]["pos"], "rule": c["case"]["rule"], "ident": toks(m["ident"]), "panic": False, "obs": toks(g)})
+                meta.append((lang, c, src, m, g))
+    ok, matched, tres = common.trace_validate("Trace_C16", events, timeout=600)
+    chk.add_tlc("Trace_C16[backends]", tres)
+    if matched != len(events):
+        raise ToolError(f"Trace_C16 consumed {matched} of {len(events)} events")
+    chk.traces += len(events) - len(tres.bad)
+    chk.extra["backend_events"] = len(events)
+    for lang, c, src, m, g in meta:
+        chk.judged((lang + "-backend", c["case"]["pos"], c["case"]["rule"], c["case"]["layout"], c["case"]["idx"], m["ident"]))
+    for i in tres.bad:
+        lang, c, src, m, g = meta[i - 1]
+        chk.mismatch(f"C16/{lang}-backend/{c['case']['pos']}/{c['case']['rule']}/layout={c['case']['layout']}/printed-name!=serde",
+                     f"{lang}: {c['case']['pos']} `{m['ident']}` under rename_all={c['case']['rule']} in members {[x['ident'] for x in c['members']]}: the generated code binds "
+                     f"`{g}`, serde uses `{m['expect']}`", {"case": c["case"], "lang": lang, "src": src, "backend": True}, m["expect"], g)
 
 
 def replay(chk, rec):
     c = rec["case"]
+    if c.get("backend"):
+        backends(chk)
+        chk.mismatches = {k: v for k, v in chk.mismatches.items() if k == rec["signature"]}
+        return
     ident = c["ident"]
     exp = {"field": {r: "?" for r in RULES}, "variant": {r: "?" for r in RULES}}
     silent = common.Check(chk.pid, chk.tier, chk.seed)
